@@ -23,17 +23,28 @@ def decode_kwargs(kw):
             out[k] = [[_elem(e) for e in c] for c in v]
         elif k == "elements_to_ignore" or k == "trusted_edges_for_safety":
             out[k] = [_elem(e) for e in v] if v is not None else None
+            if k == "elements_to_ignore" and kw.get("elements_to_ignore_as") == "generator" and v is not None:
+                out[k] = (x for x in list(out[k]))      # a one-shot iterable with the same entries
+        elif k == "elements_to_ignore_as":
+            pass
         elif k == "error_scaling":
             out[k] = {_elem(e): f for e, f in v}
+        elif k == "error_scaling_number_type":
+            pass
         elif k == "path_length_ranges":
             out[k] = [tuple(r) for r in v]
         elif k in ("additional_starts", "additional_ends") and isinstance(v, dict) and "as" in v:
             # the same node collection in another container type: {"as": "tuple" | "set", "items": [...]}
-            out[k] = {"tuple": tuple, "set": set, "list": list}[v["as"]](v["items"])
+            out[k] = {"tuple": tuple, "set": set, "list": list, "generator": (lambda it: (x for x in list(it)))}[v["as"]](v["items"])
         elif k == "optimization_options":
             out[k] = copy.deepcopy(v)
         else:
             out[k] = copy.deepcopy(v)
+    if kw.get("error_scaling_number_type") and "error_scaling" in out:
+        # the same factors given as another real number type (numpy scalars of a graph / table pipeline, fractions)
+        import numpy as np, fractions
+        t = {"float32": np.float32, "float64": np.float64, "float16": np.float16, "Fraction": fractions.Fraction}[kw["error_scaling_number_type"]]
+        out["error_scaling"] = {e: t(f) for e, f in out["error_scaling"].items()}
     return out
 
 
